@@ -544,7 +544,9 @@ def e2e_judge(it, out):
                     # M = a almost surely: 0/0; the code prints nan (no bound claimed)
                     it.setdefault("notes", []).append("lower-degenerate-0/0:" + str(b[n][0]))
                     if c is not None and c > p_gt:
-                        findings.append(dict(base, kind="lower", order=0, n=n, goal=g["goal"], code=b[n][1], spec=fs(p_gt)))
+                        findings.append(dict(base, kind="lower-degenerate", order=0, n=n, goal=g["goal"], code=b[n][1],
+                                             spec=fs(p_gt), lower_den="0",
+                                             law_at_n=[[fs(p), fs(v)] for p, v in law if p != 0]))
                     continue
                 if mod.get("ok") and (c is None or c != Fr(mod["lower"])):
                     mdiffs.append({"what": f"lower bound at n={n}", "code": b[n], "model": mod["lower"],
@@ -573,9 +575,9 @@ def _find_printed(printed, rel):
 
 
 def part_b(chk, quick, tag):
-    n_gen = 45 if quick else 700
+    n_gen = 45 if quick else 500
     nmax = 4
-    timeout = 50 if quick else 200
+    timeout = 50 if quick else 120
     r = rng(tag + "-b")
     cases = pipeline.generate_cases(n_gen, tag + "-gen", families=FAMILIES)
     items = e2e_prepare(cases, nmax, r, chk)
@@ -690,7 +692,7 @@ def part_c(chk, quick, r):
                                      for ks in gc_in])
     rt = model_batch_parallel([{"op": "stats_convert", "moments": [fs(m) for m in cumulants_to_moments(ks, len(ks))[1:]]}
                                for ks in gc_in])
-    bad, n_ok, n_to = [], 0, 0
+    bad, n_ok, n_to, n_gcv = [], 0, 0, 0
     for ks, o, gm, rtm in zip(gc_in, o_gc, gc_model, rt):
         chk.evaluations += 1
         ksj = [fs(k) for k in ks]
@@ -714,7 +716,10 @@ def part_c(chk, quick, r):
             rec = {"part": "c-gc", "cumulants": ksj, "integrals": res["integrals"], "expected": [fs(e) for e in exp],
                    "how": "∫ x^k · GramCharlierExpansion(cumulants)() dx for k = 0..len(cumulants) must be 1, m_1, …, m_k "
                           "(raw moments belonging to the cumulants)"}
-            chk.violation(f"Gram-Charlier density for cumulants {ksj}: integrals {res['integrals']} expected {rec['expected']}", rec)
+            n_gcv += 1
+            if n_gcv <= 2:
+                chk.violation(f"Gram-Charlier density for cumulants {ksj}: integrals {[v[1] for v in res['integrals']]} "
+                              f"expected {rec['expected']}", rec)
             continue
         if "direct" in res and [q_of(v) for v in res["direct"]] != exp[:len(res["direct"])]:
             bad.append({"cumulants": ksj, "direct-integration": res["direct"], "expected": [fs(e) for e in exp]})
@@ -741,7 +746,7 @@ def part_c(chk, quick, r):
                       no_input=True)
     # Cornish–Fisher
     bad = []
-    n_ok = 0
+    n_ok = n_cfv = 0
     for N, o in zip(range(2, 7), o_sym):
         chk.evaluations += 1
         if o["status"] == "timeout":
@@ -777,6 +782,9 @@ def part_c(chk, quick, r):
             while tb and tb[-1] == 0:
                 tb.pop()
             if code != tb:
+                n_cfv += 1
+                if n_cfv > 2:
+                    continue
                 chk.violation(f"Cornish-Fisher for cumulants {ksj}: coefficients {o['result']['coeffs']} published {o['result']['textbook']}",
                               {"part": "c-cf-numeric", "cumulants": ksj, "sigma": fs(s), "code": o["result"]["coeffs"],
                                "textbook": o["result"]["textbook"]})
